@@ -65,7 +65,7 @@ def run(rep, tier, seed):
             src = script(c["ops"], d)
             try:
                 p = subprocess.run([core.P2SH, "-c", src], input=(b"garbage-not-pcap" * 4 if garbage else good_stdin),
-                                   stdout=subprocess.PIPE, stderr=subprocess.PIPE, timeout=30)
+                                   stdout=subprocess.PIPE, stderr=subprocess.PIPE, timeout=180)
                 c["err"] = p.stderr.decode("utf8", "replace")
                 c["how"] = "exit" if p.returncode == 0 else ("panic" if p.returncode == 101 else "rc=%d" % p.returncode)
             except subprocess.TimeoutExpired:
